@@ -215,10 +215,11 @@ class St:
         self.refine = {}            # term of an optional value -> Val it is known to hold on this path
         self.loopfin = None         # inside a loop body: what `continue` does
         self.ptl = None             # inside the loop over particles: Lean term of the current particle
+        self.kobj_made = False      # a frozen distribution was already created for the current particle on this path
 
     def copy(self):
         s = St(dict(self.env), self.L, self.A, self.warned, None if self.selfattrs is None else dict(self.selfattrs))
-        s.refine, s.loopfin, s.ptl = dict(self.refine), self.loopfin, self.ptl
+        s.refine, s.loopfin, s.ptl, s.kobj_made = dict(self.refine), self.loopfin, self.ptl, self.kobj_made
         return s
 
 
@@ -633,6 +634,10 @@ class Tr:
             if any(k.arg not in ("mean", "cov") for k in c.keywords) or len(args) > 2 or \
                     not all(self.opaque_ok(a, st) for a in args):
                 raise Untranslatable("multivariate_normal(...) arguments")
+            if st.kobj_made:
+                # the recorded pdf values are ONE sequence per particle: two live objects would interleave it
+                raise Untranslatable("a second multivariate_normal(...) object for the same particle")
+            st.kobj_made = True
             return Val(f"{st.ptl}.kv", "KOBJ")
         # ---- constructor
         if (mod, name) == ("", CLS):
@@ -1025,6 +1030,7 @@ class Tr:
         if any(e.pend for e in ends):
             raise Untranslatable("internal: pending effects at a join")
         keys, new, gone, spec = self.differing(st, ends)
+        st.kobj_made = st.kobj_made or any(e.kobj_made for e in ends)
         allk = keys + new + spec
         tys = {k: self.carried_type([self.end_val(e, k) for e in ends]) for k in allk}
         opq = [k for k in allk if tys[k] == "OPQ"]
@@ -1206,6 +1212,7 @@ class Tr:
             b.env[name] = Val(f"{p}{pr}", ty)
             if ty == "PTL":
                 b.ptl = f"{p}{pr}"
+                b.kobj_made = False
         ends, marks = [], []
 
         def end(s_, i_):
@@ -1254,6 +1261,8 @@ class Tr:
                     raise Untranslatable(f"loop body changes `{k}` in a way the loop state cannot carry")
             if "self" not in changed and e.L != st.L:
                 raise Untranslatable("internal: loop changes self")
+        if not any(t[2] == "PTL" for t in targets):
+            st.kobj_made = st.kobj_made or any(e.kobj_made for e in ends)
         for e, m in zip(ends, marks):
             tup = ", ".join(self.as_type(self.end_val(e, k), tys[k]) for k in changed)
             text = text.replace(m, ".ok " + ((f"({tup})" if n != 1 else tup) if n else "()"))
